@@ -108,6 +108,10 @@ i = 0
 while %(endless)r or i < len(sizes):
     channel.send((i, 'x' * sizes[i %% len(sizes)]))
     i += 1
+    if %(endless)r:
+        # paced: a consumer that reads eagerly into unbounded queues (every hop of a via= connection does) would otherwise pile up a
+        # backlog of tiny messages that takes longer to work off than the bound the waiters are given -- items that arrived come first
+        channel.gateway.execmodel.sleep(0.001)
 channel.receive()                       # never answered: the process is killed while it waits here (or while it still writes)
 """
 W_REAL_CB = """
